@@ -6,7 +6,6 @@ import (
 	"fmt"
 	"os"
 	"path/filepath"
-	"sort"
 	"strings"
 
 	"github.com/prometheus/common/model"
@@ -31,25 +30,21 @@ func setup(t string) {
 	tier = t
 	cfg = pipeline.DefaultConfig()
 	gen = pipeline.Generator(cfg)
-	dir := filepath.Join(os.Getenv("VERIF_DIR"), ".build", "c02", "seeds")
-	names, _ := filepath.Glob(filepath.Join(dir, "*.yml"))
-	sort.Strings(names)
+	// every space runs setup: whatever a process ran before, it ends with the same corpus. seedCorpus is compiled
+	// into the binary (seeds_gen.go, written by prebuild.sh), so the master and all workers agree on it.
+	seeds = seeds[:0]
 	maxLines := 12
 	maxBytes := 400
 	if t == "thorough" {
 		maxLines, maxBytes = 40, 1500
 	}
-	for _, n := range names {
-		b, err := os.ReadFile(n)
-		if err != nil {
-			panic(err)
-		}
-		if strings.Count(string(b), "\n") <= maxLines && len(b) <= maxBytes {
-			seeds = append(seeds, string(b))
+	for _, b := range seedCorpus {
+		if strings.Count(b, "\n") <= maxLines && len(b) <= maxBytes {
+			seeds = append(seeds, b)
 		}
 	}
 	if len(seeds) < 50 {
-		panic(fmt.Sprintf("seed corpus missing or too small: %d seeds in %s", len(seeds), dir))
+		panic(fmt.Sprintf("seed corpus missing or too small: %d seeds", len(seeds)))
 	}
 }
 
